@@ -58,6 +58,7 @@ type Transport struct {
 	DataWithEOF bool     // deliver the last chunk together with io.EOF
 	ReadErr     error    // error returned after the script instead of EOF (when non-nil)
 	Reads       int
+	Consumed    int // inbound bytes handed out so far
 	// fault injection (1-based call counters; 0 = never)
 	FailWriteAt     int // k-th Write/Writev call fails
 	FailFlushAt     int
@@ -180,6 +181,7 @@ func (m *Transport) Read(p []byte) (int, error) {
 		} else {
 			m.In = m.In[1:]
 		}
+		m.Consumed += n
 		m.ev('R', append([]byte(nil), p[:n]...), 0, false)
 		if len(m.In) == 0 && m.EOFAtEnd && m.DataWithEOF {
 			return n, io.EOF
